@@ -1185,16 +1185,18 @@ pub fn bfs_with(
                     (t, out)
                 })
                 .collect();
+            let first_new = next.len();
             for (t, succ) in results {
                 stats.transitions += t;
                 for (c, k) in succ {
                     if seen.insert(k) {
-                        visit(&c);
                         eng.run.state();
                         next.push(c);
                     }
                 }
             }
+            // state oracles of the new unique nodes, in parallel
+            next[first_new..].par_iter().for_each(|c| visit(c));
             let rss_gb = rss_bytes() as f64 / (1u64 << 30) as f64;
             if seen.len() > max_states || rss_gb > 20.0 {
                 capped_mid_level = true;
